@@ -14,6 +14,27 @@ import time
 import traceback
 
 
+def enc(o):
+    """JSON-safe encoding of counterexample values (bytes are not JSON)."""
+    if isinstance(o, (bytes, bytearray)):
+        return {"__bytes__": list(o)}
+    if isinstance(o, dict):
+        return {k: enc(v) for k, v in o.items()}
+    if isinstance(o, (list, tuple)):
+        return [enc(v) for v in o]
+    return o
+
+
+def dec(o):
+    if isinstance(o, dict):
+        if set(o) == {"__bytes__"}:
+            return bytes(o["__bytes__"])
+        return {k: dec(v) for k, v in o.items()}
+    if isinstance(o, list):
+        return [dec(v) for v in o]
+    return o
+
+
 def load_module(path: str, param):
     os.environ["VERIF_PARAM"] = json.dumps(param)
     name = "vh_" + os.path.splitext(os.path.basename(path))[0]
@@ -72,7 +93,7 @@ def analyze(job):
                 "state": m.state.value,
                 "message": m.message,
                 "line": m.line,
-                "args": parse_call(m.message, fn) if m.state in (MessageType.POST_FAIL, MessageType.EXEC_ERR, MessageType.POST_ERR) else None,
+                "args": enc(parse_call(m.message, fn)) if m.state in (MessageType.POST_FAIL, MessageType.EXEC_ERR, MessageType.POST_ERR) else None,
             }
         )
     return {"messages": out, "num_paths": stats.get("num_paths", 0), "wall": time.time() - t0}
@@ -81,7 +102,7 @@ def analyze(job):
 def replay(job):
     mod = load_module(job["module"], job.get("param"))
     fn = getattr(mod, job["func"])
-    args = job["args"]
+    args = dec(job["args"])
     res = {"harness": None, "real": None}
     try:
         r = fn(**args)
@@ -111,7 +132,7 @@ def main():
         res = analyze(job) if mode == "analyze" else (call(job) if mode == "call" else replay(job))
     except BaseException as e:  # noqa
         res = {"worker_error": repr(e), "tb": traceback.format_exc()[-3000:]}
-    sys.stdout.write("\n@@RESULT@@" + json.dumps(res) + "\n")
+    sys.stdout.write("\n@@RESULT@@" + json.dumps(res, default=repr) + "\n")
 
 
 if __name__ == "__main__":
